@@ -44,6 +44,11 @@ impl Tokens {
     pub fn val(&self, tok: &str) -> String {
         self.vals.get(tok).cloned().unwrap_or_else(|| tok.to_string())
     }
+    /// the byte string a value token stands for (a representation request "~v" is not part of the datum)
+    pub fn datum(&self, tok: &str) -> String {
+        let v = self.val(tok);
+        v.strip_suffix("~v").map(|x| x.to_string()).unwrap_or(v)
+    }
 }
 
 fn idx_map<'a>(v: &'a Value, cap: usize) -> Vec<&'a Value> {
@@ -98,7 +103,7 @@ impl Abs {
                 if s == "none" {
                     None
                 } else {
-                    Some(tk.val(s))
+                    Some(tk.datum(s))
                 }
             })
             .collect();
